@@ -45,7 +45,8 @@ def main():
                 continue
             rng = random.Random(f'{a.seed}:{b}')
             rec_ctx.drive(rec, table, b, fams, rng, exq, label_variant=lv)
-            if b % 3 == 0 and table.n * table.m <= 80 and hasattr(rec, 'ctx') and a.prop != 'C15':
+            if b % 3 == 0 and table.n * table.m <= 80 and hasattr(rec, 'ctx') and a.prop != 'C15' \
+                    and not table.tag.startswith('colossal'):
                 # two live contexts with the SAME labels and different tables: build and query a sibling, then
                 # query the older object again (class-level / label-keyed state shared between instances)
                 sib = rec_ctx.crc_twin(concepts, rec.olabels, rec.plabels, table) if b % 2 == 0 else None
